@@ -131,6 +131,19 @@ def prog_C03(ctx):
     if al:
         ctx.cov['evaluations'] = ev + al.get('PartialsChecked', 0) + al.get('SignaturesChecked', 0)
     ctx.cov['trusted_base'] = ctx.cov.get('trusted_base', []) + ['monitors algdiff (C03 signed_eq_proposed, stored_payload, foreign_message): kyber tbls.Verify and the spec signing root computed by the harness are the oracle']
+    # the node's side of a proposal (what it expands, keeps as placeholders, later reconstructs over): nodediff, with the monitor
+    # stored_eq_proposed after every accepted proposal and a second proposal under the same batch id shown (and rolled back) first
+    res = run_linediff(ctx, 'nodediff', 'node')
+    if res is not None:
+        for mline in (res['stats'].get('Monitors') or []):
+            if mline.startswith('C03 '):
+                ctx.violations.append(dict(kind='impl-counterexample', driver='nodediff', what=mline))
+        if res['lean_ok']:
+            rel = [d for d in res['diffs'] if 'event_signing' in d['op'] or 'signature_reconstruct' in d['op']]
+            if rel:
+                ctx.broken.append(dict(kind='correspondence', what='nodediff: real node and Lean node model disagree on %d of %d operations (%d of the shown ones are signing messages)' % (res['ndiffs'], res['nops'], len(rel)),
+                                       detail='', diffs=rel[:10], script=os.path.join(res['dir'], 'ops.txt')))
+        ctx.cov['node_layer'] = dict(operations=res['nops'], disagreements=res['ndiffs'], proposals_whose_stored_form_was_checked=res['stats'].get('ProposalsStored'))
 
 
 def fsm_part(ctx, monitor_prefixes, event_prefixes):
